@@ -1,7 +1,7 @@
 \* exhaustive: assemblies of 3 blocks, k in -13..13
-CONSTANTS K = 13  H = 5  NB = 3  Layouts = {"p1", "p7", "p19", "singles", "mixed", "nogrid"}  MaxLevel = 3
+CONSTANTS K = 13  H = 5  NB = 3  Layouts = {"p1", "p7", "p19", "singles", "mixed", "nogrid"} TieDi = FALSE  MaxLevel = 3
 INIT Init
-NEXT Next
+NEXT NextB
 CONSTRAINT Bound
 INVARIANT TypeOK
 INVARIANT ShapeKept
